@@ -1301,6 +1301,8 @@ std::vector<double> true_paths(Rng& rng, double range)
                               fdn(range * dtrl),
                               fup(range * dtrl),
                               range * dtrl * 0.5,
+                              range * 0.06,
+                              range * 0.1,
                               range * 1e-3,
                               ms,
                               fdn(ms),
@@ -1359,7 +1361,7 @@ void mode_msc(unsigned long seed, int count, std::string const& out)
                         {
                             double lam = lam0 * std::pow(eg[i], b);
                             if (mkind == "kink" && eg[i] > 10)
-                                lam *= 0.8;  // cross section jumps UP above 10 MeV (documented for e+)
+                                lam *= 0.5;  // cross section jumps UP above 10 MeV (documented for e+)
                             sx[i] = eg[i] * eg[i] / lam;
                         }
                         ValueGridLogBuilder(eg.front(), eg.back(), sx).build(ins);
@@ -1376,7 +1378,7 @@ void mode_msc(unsigned long seed, int count, std::string const& out)
                     {
                         double energy = std::pow(10.0, rng.uni(-3.5, 3));
                         if (i % 4 == 0)
-                            energy = 10 * (1 + rng.uni(-0.05, 0.3));  // around the kink
+                            energy = 10 * (1 + rng.uni(-0.05, 0.6));  // around the kink
                         auto phys = slot.init(MaterialId(mi), pid, energy);
                         auto particle = slot.particle();
                         UrbanMscHelper helper(shared, particle, phys);
